@@ -169,10 +169,17 @@ def copy_tree(t):
     return {"c": list(t["c"]), "k": [[r, None if s is None else copy_tree(s)] for r, s in t["k"]]}
 
 
+BIG_INTS = [2 ** 31, 2 ** 32, 2 ** 53 + 1, 2 ** 63, 2 ** 64, 2 ** 100]
+NET_ID_KINDS = ["pair", "int", "str", "tuple", "named", "frozenset", "object"]
+
+
 def gen_forest(rng):
     n_nets = rng.choice([1, 2, 2, 3, 3, 4, 6])
     pool = [(rng.choice([0, 1, 0xffff0000, 0xffffffff, rng.randrange(1 << 32)]),
              rng.choice([0, 0xffffffff, 0xffff0000, rng.randrange(1 << 32)])) for _ in range(rng.choice([1, 2, 3, 4]))]
+    if rng.random() < 0.08:
+        # keys and masks are opaque to the conversion (unbounded): values around and beyond the 32/53/64-bit edges
+        pool = [(max(0, rng.choice(BIG_INTS + [k]) + rng.choice([0, 0, -1, 1])), rng.choice(BIG_INTS + [m])) for k, m in pool]
     nets = []
     for i in range(n_nets):
         key, mask = rng.choice(pool)
@@ -222,6 +229,20 @@ def gen_forest(rng):
         sub = {"c": [rng.randrange(FW), rng.randrange(FH)], "k": [[7, None]]}
         victim["k"].append([None if rng.random() < 0.5 else 6 + rng.randrange(18), sub])
     case = {"kind": "forest", "nets": nets, "links_enum": rng.random() < 0.3}
+    if rng.random() < 0.01:
+        case["nets"] = nets = []                # nothing to convert: empty dicts in, empty dict out
+    if rng.random() < 0.04:
+        # chip coordinates are opaque too: the whole forest far away from the origin
+        dx, dy = rng.choice(BIG_INTS + [0]), rng.choice(BIG_INTS + [255])
+        for n in nets:
+            for t in tree_nodes(n["tree"]):
+                t["c"] = [t["c"][0] + dx, t["c"][1] + dy]
+    if rng.random() < 0.35:
+        # argument kinds and calling convention (see build_forest)
+        case["ak"] = {"ids": rng.choice(NET_ID_KINDS), "routes": rng.choice(["dict", "ordered", "subclass"]),
+                      "net_keys": rng.choice(["dict", "ordered", "default", "subclass"]),
+                      "km": rng.choice(["tuple", "named"]), "num": rng.choice(["int", "intlike"]),
+                      "conv": rng.choice(["pos", "kw"])}
     if rng.random() < 0.4:
         # the same trees in other legal clothes (the Lean side reads only "c" and "k")
         # (children in a set are visited in an arbitrary order; in a malformed forest the order decides which of
@@ -236,7 +257,7 @@ def gen_forest(rng):
     return case
 
 
-VERTEX_KINDS = ["obj", "obj", "str", "int", "pair", "xy", "ntuple", "frozenset", "faketree"]
+VERTEX_KINDS = ["obj", "obj", "str", "int", "pair", "xy", "ntuple", "frozenset", "faketree", "t0", "t1", "t3", "bool"]
 
 
 def decorate(rng, t, ordered=False):
@@ -248,6 +269,8 @@ def decorate(rng, t, ordered=False):
     t["f"] = rng.choice(["list", "list", "tuple", "tuple" if ordered else "set"])
     t["p"] = rng.choice(["tuple", "tuple", "named"])
     t["v"] = [rng.choice(VERTEX_KINDS) for _ in t["k"]]
+    t["cf"] = rng.choice(["tuple", "tuple", "list", "named"])          # the chip argument: any (x, y) pair
+    t["nk"] = rng.choice(["empty", "omit", "none", "kw"])               # a node without children: [], omitted, None
 
 
 def wellformed(t):
@@ -267,6 +290,9 @@ class RoutingTree(object):
 
 ChildPair = collections.namedtuple("ChildPair", "route obj")
 VertexTuple = collections.namedtuple("VertexTuple", "route obj")
+ChipXY = collections.namedtuple("ChipXY", "x y")
+KeyMask = collections.namedtuple("KeyMask", "key mask")
+NetId = collections.namedtuple("NetId", "name index")
 _tree_classes = {}
 
 
@@ -295,7 +321,15 @@ def tree_classes():
 def make_vertex(kind, chip, i):
     from rig.routing_table import Routes
     if kind == "str":
-        return "vertex %d at %r" % (i, chip)
+        return "vertex %d at %r" % (i, chip) + ": 100% {} {0} %s %(x)d"
+    if kind == "t0":
+        return ()
+    if kind == "t1":
+        return (Vertex(),)
+    if kind == "t3":
+        return (Routes(i % 24), Vertex(), None)
+    if kind == "bool":
+        return i % 2 == 0
     if kind == "int":
         return 1000 * i + chip[0]
     if kind == "pair":
@@ -327,7 +361,18 @@ def build_tree(t, use_links):
         kids.append(ChildPair(rr, child) if t.get("p") == "named" else (rr, child))
     form = t.get("f", "list")
     kids = tuple(kids) if form == "tuple" else set(kids) if form == "set" else kids
-    return tree_classes()[t.get("s", 0)](tuple(t["c"]), kids)
+    cf = t.get("cf", "tuple")
+    chip = list(t["c"]) if cf == "list" else ChipXY(*t["c"]) if cf == "named" else tuple(t["c"])
+    cls = tree_classes()[t.get("s", 0)]
+    if not t["k"] and form == "list":
+        nk = t.get("nk", "empty")
+        if nk == "omit":
+            return cls(chip)
+        if nk == "none":
+            return cls(chip, None)
+        if nk == "kw":
+            return cls(chip=chip, children=[])
+    return cls(chip, kids)
 
 
 def RoutingTableEntryExplicit(e):
@@ -372,27 +417,126 @@ def canon_entry(e):
             sorted(-1 if s is None else int(s) for s in e.sources)]
 
 
-def impl_tables(case):
-    from rig.routing_table import routing_tree_to_tables, MultisourceRouteError
-    routes, net_keys = {}, {}
-    for i, n in enumerate(case["nets"]):
-        net = ("net", i)
-        routes[net] = build_tree(n["tree"], case.get("links_enum", False))
-        net_keys[net] = (n["key"], n["mask"])
-    if case.get("reconvert") is not None:
-        try:
-            edit_tables(routing_tree_to_tables(routes, net_keys), case["reconvert"])
-        except (MultisourceRouteError, AssertionError, ValueError):
-            pass
+_HANGS = [0]
+
+
+def limited(seconds, f):
+    """one call of the implementation under a CPU-time limit (about 100x what such a call needs; a tenth of it once
+    three calls of this run did not return); common.ImplHang is raised when it does not return in time"""
+    from harness import common
+    with common.cpu_limit(seconds if _HANGS[0] < 3 else max(0.5, seconds / 10.0)):
+        return f()
+
+
+def fresh_rig():
+    """forget rig's modules: the next import executes them again, so module-level, class-level and default-argument
+    state starts afresh - a history then replays on its own"""
+    import sys
+    for k in [k for k in sys.modules if k == "rig" or k.startswith("rig.")]:
+        del sys.modules[k]
+    _tree_classes.clear()
+
+
+def int_like(v, i):
+    """the same number as another legal kind of int: bool, IntEnum member, numpy integer"""
+    if v in (0, 1) and i % 3 == 0:
+        return bool(v)
+    if i % 2 == 0:
+        import enum
+        return enum.IntEnum("Number", {"value_%d" % i: v})["value_%d" % i]
     try:
-        tables = routing_tree_to_tables(routes, net_keys)
+        import numpy
+        if v < 2 ** 63:
+            return numpy.int64(v)
+        if v < 2 ** 64:
+            return numpy.uint64(v)
+    except ImportError:
+        pass
+    return v
+
+
+def net_id(kind, i):
+    if kind == "int":
+        return i
+    if kind == "str":
+        return "net %d" % i + ": 100% {} {0} %s %(x)d"
+    if kind == "tuple":
+        return tuple(range(i % 4)) + ((i,) if i >= 4 else ())      # lengths 0..3
+    if kind == "named":
+        return NetId("net", i)
+    if kind == "frozenset":
+        return frozenset(["net", i])
+    if kind == "object":
+        return Vertex()
+    return ("net", i)
+
+
+class DictSubclass(dict):
+    pass
+
+
+def make_dict(kind):
+    if kind == "ordered":
+        return collections.OrderedDict()
+    if kind == "default":
+        return collections.defaultdict(lambda: None)
+    if kind == "subclass":
+        return DictSubclass()
+    return {}
+
+
+def build_forest(case):
+    """the live arguments of routing_tree_to_tables for a forest case: (routes, net_keys, net ids in order)"""
+    ak = case.get("ak") or {}
+    routes, net_keys, ids = make_dict(ak.get("routes")), make_dict(ak.get("net_keys")), []
+    for i, n in enumerate(case["nets"]):
+        net = net_id(ak.get("ids"), i)
+        ids.append(net)
+        routes[net] = build_tree(n["tree"], case.get("links_enum", False))
+        net_keys[net] = make_km(ak, n["key"], n["mask"], i)
+    return routes, net_keys, ids
+
+
+def make_km(ak, key, mask, i):
+    if ak.get("num") == "intlike":
+        key, mask = int_like(key, i), int_like(mask, i + 1)
+    return KeyMask(key, mask) if ak.get("km") == "named" else (key, mask)
+
+
+def convert(routes, net_keys, case, seconds=2):
+    """one call of routing_tree_to_tables: (canonical outcome, the dict it returned or None)"""
+    from harness import common
+    from rig.routing_table import routing_tree_to_tables, MultisourceRouteError
+    kw = (case.get("ak") or {}).get("conv") == "kw"
+    try:
+        tables = limited(seconds, (lambda: routing_tree_to_tables(net_keys=net_keys, routes=routes)) if kw else
+                         (lambda: routing_tree_to_tables(routes, net_keys)))
+    except common.ImplHang as e:
+        _HANGS[0] += 1
+        return {"hang": str(e)}, None
     except MultisourceRouteError as e:
-        return {"err": ["multisource", e.key, e.mask, [e.x, e.y]]}
+        return {"err": ["multisource", int(e.key), int(e.mask), [int(e.x), int(e.y)]]}, None
     except AssertionError:
-        return {"err": ["assertion"]}
+        return {"err": ["assertion"]}, None
     except ValueError:
-        return {"err": ["valueError"]}
-    return {"ok": [[list(c), [canon_entry(e) for e in es]] for c, es in tables.items()]}
+        return {"err": ["valueError"]}, None
+    except (RecursionError, OverflowError, MemoryError, TypeError, KeyError, AttributeError, IndexError) as e:
+        return {"err": ["undocumented", type(e).__name__, str(e)[:120]]}, None
+    return canon_tables(tables), tables
+
+
+def canon_tables(tables):
+    return {"ok": [[[int(c[0]), int(c[1])], [canon_entry(e) for e in es]] for c, es in tables.items()]}
+
+
+def impl_tables(case, seconds=2):
+    from rig.routing_table import MultisourceRouteError
+    routes, net_keys, _ = build_forest(case)
+    if case.get("reconvert") is not None:
+        first, tables = convert(routes, net_keys, case, seconds)
+        if tables is not None:
+            edit_tables(tables, case["reconvert"])
+    return convert(routes, net_keys, case, seconds)[0]
 
 
 def norm_tables(res):
@@ -415,60 +559,364 @@ def shares(case):
     return False
 
 
-def eval_forests(ctx, cases):
+def forest_reqs(fc, impl):
+    big = any(n["key"] >= 1 << 32 or n["mask"] >= 1 << 32 for n in fc["nets"])
+    return [{"suite": "c10", "op": "tables", "nets": fc["nets"]},
+            {"suite": "c10", "op": "tables_spec", "nets": fc["nets"], "result": impl if "hang" not in impl else {"err": ["hang"]}},
+            {"suite": "c10", "op": "to_c04", "tables": [] if big else impl.get("ok", [])}]
+
+
+def judge_forest(ctx, case, fc, impl, out3, label="", count=True):
+    """judge one conversion: `fc` = the forest as it was at the call (nets + options), `case` = what is reported
+    (the forest itself or the whole history it belongs to)"""
     from harness import c04
-    reqs = []
+    model, spec, conv = out3
+    ctx.traces += 1
+    wf = all(wellformed(n["tree"]) for n in fc["nets"])
+    if "hang" in impl:
+        # the model always returns (tables_total / tables_exact): not returning is a failure of the conversion
+        ctx.violation("did-not-return", label + "routing_tree_to_tables did not return: " + impl["hang"], case)
+        if count:
+            ctx.case(case, False)
+        return False
+    # cross-model: Lean `toC04` of the implementation's entries = the encoding C04's harness feeds its model
+    big = any(n["key"] >= 1 << 32 or n["mask"] >= 1 << 32 for n in fc["nets"])
+    want = [] if big else [[ch, [[c04.bits_of(r), k, m, c04.bits_of(None if x < 0 else x for x in src)] for r, k, m, src in es]]
+                           for ch, es in impl.get("ok", [])]
+    if conv != want:
+        ctx.mismatch("c10.to_c04", "toC04 of the tables differs from the C04 encoding: %r / %r" % (
+            str(conv)[:200], str(want)[:200]), case)
+    ctx.tag("forest_" + ("ok" if "ok" in impl else impl["err"][0]) + ("" if wf else "_malformed"))
+    if "ok" in impl and shares(fc):
+        ctx.tag("forest_ok_with_merge")
+    nodes = [t for n in fc["nets"] for t in tree_nodes(n["tree"])]
+    if any("s" in t for t in nodes):
+        ctx.tag("forest_decorated")
+        if any(t.get("s") for n in fc["nets"] for t in tree_nodes(n["tree"])[1:]):
+            ctx.tag("forest_subclass_below_root")
+        if any(t.get("s") for n in fc["nets"] for t in tree_nodes(n["tree"])[:1]):
+            ctx.tag("forest_subclass_at_root")
+        if any(t.get("f") == "set" for t in nodes):
+            ctx.tag("forest_children_in_set")
+        if any(not t["k"] and t.get("nk") in ("omit", "none", "kw") for t in nodes):
+            ctx.tag("forest_children_argument_omitted_or_None")
+    if fc.get("reconvert") is not None:
+        ctx.tag("forest_converted_again_after_caller_edits")
+    if fc.get("ak"):
+        ak = fc["ak"]
+        ctx.tag("forest_ak_ids_" + ak["ids"], "forest_ak_call_" + ak["conv"], "forest_ak_numbers_" + ak["num"],
+                "forest_ak_routes_" + ak["routes"], "forest_ak_net_keys_" + ak["net_keys"])
+    if big:
+        ctx.tag("forest_big_key_or_mask")
+    if any(t["c"][0] >= 1 << 31 or t["c"][1] >= 1 << 31 for t in nodes):
+        ctx.tag("forest_big_chip_coordinates")
+    if not fc["nets"]:
+        ctx.tag("forest_empty")
+    if norm_tables(impl) != norm_tables(model):
+        ctx.mismatch("c10.tables", label + "impl=%r model=%r" % (str(impl)[:300], str(model)[:300]), case)
+    elif impl != model:
+        ctx.tag("forest_order_differs_from_model")
+    if wf:
+        if not spec["holds"]:
+            if "ok" in impl:
+                what = ("tables are not exactly what the trees demand (conflict among trees: %s): %s"
+                        % (spec["conflict"], str(impl)[:300]))
+                key = "tables-not-exact" if not spec["conflict"] else "multisource-not-reported"
+            elif impl["err"][0] == "multisource":
+                what = "MultisourceRouteError%r but no two nodes there fork differently" % (impl["err"][1:],)
+                key = "multisource-spurious"
+            else:
+                what = "undocumented error %r on well-formed trees" % (impl["err"],)
+                key = "unexpected-error"
+            ctx.violation(key, label + what, case)
+        if spec["conflict"]:
+            ctx.tag("forest_conflict")
+    nontrivial = wf and shares(fc)
+    if count:
+        ctx.case(case, nontrivial)
+    return nontrivial
+
+
+def eval_forests(ctx, cases, seconds=2):
+    reqs, impls = [], []
     for c in cases:
-        c["_impl"] = impl_tables(c)
-        reqs.append({"suite": "c10", "op": "tables", "nets": c["nets"]})
-        reqs.append({"suite": "c10", "op": "tables_spec", "nets": c["nets"], "result": c["_impl"]})
-        reqs.append({"suite": "c10", "op": "to_c04", "tables": c["_impl"].get("ok", [])})
+        impls.append(impl_tables(c, seconds))
+        reqs += forest_reqs(c, impls[-1])
     out = ctx.lean(reqs)
     for i, c in enumerate(cases):
-        impl = c.pop("_impl")
-        model, spec, conv = out[3 * i], out[3 * i + 1], out[3 * i + 2]
-        ctx.traces += 1
-        # cross-model: Lean `toC04` of the implementation's entries = the encoding C04's harness feeds its model
-        want = [[ch, [[c04.bits_of(r), k, m, c04.bits_of(None if x < 0 else x for x in src)] for r, k, m, src in es]]
-                for ch, es in impl.get("ok", [])]
-        if conv != want:
-            ctx.mismatch("c10.to_c04", "toC04 of the tables differs from the C04 encoding: %r / %r" % (
-                str(conv)[:200], str(want)[:200]), c)
-        wf = all(wellformed(n["tree"]) for n in c["nets"])
-        ctx.tag("forest_" + ("ok" if "ok" in impl else impl["err"][0]) + ("" if wf else "_malformed"))
-        if "ok" in impl and shares(c):
-            ctx.tag("forest_ok_with_merge")
-        nodes = [t for n in c["nets"] for t in tree_nodes(n["tree"])]
-        if any("s" in t for t in nodes):
-            ctx.tag("forest_decorated")
-            if any(t.get("s") for n in c["nets"] for r, sub in [(None, n["tree"])] for t in tree_nodes(sub)[1:]):
-                ctx.tag("forest_subclass_below_root")
-            if any(t.get("s") for n in c["nets"] for t in tree_nodes(n["tree"])[:1]):
-                ctx.tag("forest_subclass_at_root")
-            if any(t.get("f") == "set" for t in nodes):
-                ctx.tag("forest_children_in_set")
-        if c.get("reconvert") is not None:
-            ctx.tag("forest_converted_again_after_caller_edits")
-        if norm_tables(impl) != norm_tables(model):
-            ctx.mismatch("c10.tables", "impl=%r model=%r" % (str(impl)[:300], str(model)[:300]), c)
-        elif impl != model:
-            ctx.tag("forest_order_differs_from_model")
-        if wf:
-            if not spec["holds"]:
-                if "ok" in impl:
-                    what = ("tables are not exactly what the trees demand (conflict among trees: %s): %s"
-                            % (spec["conflict"], str(impl)[:300]))
-                    key = "tables-not-exact" if not spec["conflict"] else "multisource-not-reported"
-                elif impl["err"][0] == "multisource":
-                    what = "MultisourceRouteError%r but no two nodes there fork differently" % (impl["err"][1:],)
-                    key = "multisource-spurious"
+        judge_forest(ctx, c, c, impls[i], out[3 * i:3 * i + 3])
+
+
+# --------------------------------------------------------------------------------------------
+# histories of conversions and traversals in one process, on live objects the caller keeps and edits
+# --------------------------------------------------------------------------------------------
+#
+# {"kind": "fhist", "forests": [forest, ...], "steps": [step, ...]}; the forests' trees, routes dicts and net_keys
+# dicts are built ONCE (after rig was imported afresh) and live through the history.  Steps:
+#   ["conv", f]            routing_tree_to_tables on forest f as it is now; judged; the returned dict is kept
+#   ["edit", f, op]        the caller edits, in place, what it passes: op =
+#                            {"op": "add_kid", "net": i, "path": [child index, ...], "kid": [route, None]}
+#                            {"op": "del_kid", "net": i, "path": [...], "idx": j}
+#                            {"op": "set_km", "net": i, "key": k, "mask": m}     (net_keys[net] = ...)
+#                            {"op": "del_net", "net": i}                          (del routes[net]; del net_keys[net])
+#   ["trav", f, i, n]      a new traverse() generator on net i's tree, advanced n items and left suspended
+#   ["resume", g, n]       generator number g advanced n more items (-1: to the end)
+# At the end every kept conversion result is read again: it must be what it was when it was returned; every traversal
+# (complete or abandoned) is compared with the Lean model's traversal of the tree.
+
+def forest_edit_json(fc, op):
+    n = fc["nets"][op["net"]]
+    if op["op"] == "set_km":
+        n["key"], n["mask"] = op["key"], op["mask"]
+    elif op["op"] == "del_net":
+        n["deleted"] = True
+    else:
+        t = n["tree"]
+        for j in op["path"]:
+            t = t["k"][j][1]
+        if op["op"] == "add_kid":
+            t["k"].append(list(op["kid"]))
+            if "v" in t:
+                t["v"].append("obj")
+        else:
+            del t["k"][op["idx"]]
+            if "v" in t:
+                del t["v"][op["idx"]]
+
+
+def forest_edit_live(live, fc_before, op):
+    from rig.routing_table import Routes
+    routes, net_keys, ids = live
+    net = ids[op["net"]]
+    if op["op"] == "set_km":
+        net_keys[net] = make_km(fc_before.get("ak") or {}, op["key"], op["mask"], op["net"])
+    elif op["op"] == "del_net":
+        del routes[net]
+        del net_keys[net]
+    else:
+        t = routes[net]
+        for j in op["path"]:
+            t = t.children[j][1]
+        if op["op"] == "add_kid":
+            r = op["kid"][0]
+            t.children.append((None if r is None else Routes(r), Vertex()))
+        else:
+            del t.children[op["idx"]]
+
+
+def current_forest(fc):
+    """the forest as the conversion sees it now (deleted nets gone)"""
+    out = {k: v for k, v in fc.items() if k != "nets"}
+    out["nets"] = [n for n in fc["nets"] if not n.get("deleted")]
+    return out
+
+
+def listify(fc):
+    for n in fc["nets"]:
+        for t in tree_nodes(n["tree"]):
+            if "f" in t:
+                t["f"] = "list"
+                t["p"] = "tuple"
+                t["nk"] = "empty"
+    return fc
+
+
+def random_path(rng, tree):
+    """path (child indices) to a random node reached through subtrees only"""
+    path, t = [], tree
+    while True:
+        subs = [j for j, (r, s) in enumerate(t["k"]) if s is not None]
+        if not subs or rng.random() < 0.4:
+            return path, t
+        j = rng.choice(subs)
+        path.append(j)
+        t = t["k"][j][1]
+
+
+def gen_fhist(rng):
+    import copy
+    kind = rng.choice(["repeat", "twins", "twins", "inplace", "inplace", "inplace", "lazy", "lazy"])
+    f0 = gen_forest(rng)
+    while not f0["nets"] or not all(wellformed(n["tree"]) for n in f0["nets"]):
+        f0 = gen_forest(rng)
+    f0.pop("reconvert", None)
+    forests, steps = [f0], []
+    if kind == "repeat":
+        steps = [["conv", 0]] * rng.choice([2, 3])
+    elif kind == "twins":
+        f1 = copy.deepcopy(f0)
+        n = rng.choice(f1["nets"])
+        how = rng.choice(["route", "key", "class", "drop", "enum", "ak"])
+        node = rng.choice(tree_nodes(n["tree"]))
+        if how == "route" and node["k"]:
+            kid = rng.choice(node["k"])
+            if kid[1] is None:
+                kid[0] = rng.choice([None, rng.randrange(24)])
+            else:
+                how = "key"
+        if how == "key":
+            n["key"] = n["key"] ^ (1 << rng.randrange(32))
+        elif how == "class":
+            node["s"] = (node.get("s", 0) + 1) % 4
+        elif how == "drop" and node["k"]:
+            j = rng.randrange(len(node["k"]))
+            del node["k"][j]
+            if "v" in node:
+                del node["v"][j]
+        elif how == "enum":
+            f1["links_enum"] = not f1.get("links_enum")
+        elif how == "ak":
+            f1["ak"] = None if f1.get("ak") else {"ids": "str", "routes": "ordered", "net_keys": "default", "km": "named",
+                                                  "num": "intlike", "conv": "kw"}
+        forests.append(f1)
+        steps = rng.choice([[["conv", 0], ["conv", 1]], [["conv", 1], ["conv", 0]],
+                            [["conv", 0], ["conv", 1], ["conv", 0]], [["conv", 1], ["conv", 0], ["conv", 1]]])
+    elif kind == "inplace":
+        listify(f0)
+        work = copy.deepcopy(f0)
+        steps.append(["conv", 0])
+        for _ in range(rng.choice([1, 2, 3])):
+            cur = current_forest(work)
+            alive = [i for i, n in enumerate(work["nets"]) if not n.get("deleted")]
+            i = rng.choice(alive)
+            what = rng.choice(["add_kid", "add_kid", "del_kid", "set_km", "del_net" if len(alive) > 1 else "add_kid"])
+            path, node = random_path(rng, work["nets"][i]["tree"])
+            if what == "del_kid":
+                leaves = [j for j, (r, s) in enumerate(node["k"]) if s is None]
+                if leaves:
+                    op = {"op": "del_kid", "net": i, "path": path, "idx": rng.choice(leaves)}
                 else:
-                    what = "undocumented error %r on well-formed trees" % (impl["err"],)
-                    key = "unexpected-error"
-                ctx.violation(key, what, c)
-            if spec["conflict"]:
-                ctx.tag("forest_conflict")
-        ctx.case(c, wf and shares(c))
+                    what = "add_kid"
+            if what == "add_kid":
+                op = {"op": "add_kid", "net": i, "path": path, "kid": [rng.choice([None, rng.randrange(24), 6 + rng.randrange(18)]), None]}
+            elif what == "set_km":
+                other = rng.choice(work["nets"])
+                op = {"op": "set_km", "net": i, "key": other["key"] if rng.random() < 0.6 else rng.randrange(1 << 32),
+                      "mask": other["mask"]}
+            elif what == "del_net":
+                op = {"op": "del_net", "net": i}
+            forest_edit_json(work, op)
+            steps.append(["edit", 0, op])
+            steps.append(["conv", 0])
+            if rng.random() < 0.3:
+                steps.append(["conv", 0])
+    else:
+        listify(f0)
+        if rng.random() < 0.5:
+            forests.append(listify(gen_forest_wf(rng)))
+        gens = []
+        for _ in range(rng.choice([2, 3, 4])):
+            f = rng.randrange(len(forests))
+            steps.append(["trav", f, rng.randrange(len(forests[f]["nets"])), rng.choice([0, 1, 1, 2, 3])])
+            gens.append(len(gens))
+            if rng.random() < 0.5:
+                steps.append(["conv", rng.randrange(len(forests))])
+            if rng.random() < 0.6:
+                steps.append(["resume", rng.choice(gens), rng.choice([1, 2, -1])])
+        for g in gens:
+            if rng.random() < 0.6:           # the others are abandoned half-way
+                steps.append(["resume", g, -1])
+    return {"kind": "fhist", "forests": forests, "steps": [list(x) for x in steps]}
+
+
+def gen_forest_wf(rng):
+    f = gen_forest(rng)
+    while not f["nets"] or not all(wellformed(n["tree"]) for n in f["nets"]):
+        f = gen_forest(rng)
+    f.pop("reconvert", None)
+    return f
+
+
+def canon_visit(v):
+    d, chip, outs = v
+    return [None if d is None else int(d), [int(chip[0]), int(chip[1])], sorted(int(r) for r in outs)]
+
+
+def run_fhist(case):
+    """returns (conversions [(forest at the call, outcome)], changed kept results, traversals [(tree, visits, done)])"""
+    import copy
+    from harness import common
+    fresh_rig()
+    work = [copy.deepcopy(f) for f in case["forests"]]
+    live = [build_forest(f) for f in work]
+    convs, kept, gens = [], [], []
+    for step in case["steps"]:
+        if step[0] == "conv":
+            f = step[1]
+            fc = current_forest(copy.deepcopy(work[f]))
+            impl, tables = convert(live[f][0], live[f][1], fc)
+            convs.append((fc, impl))
+            if tables is not None:
+                kept.append((len(convs) - 1, tables, impl))
+        elif step[0] == "edit":
+            forest_edit_live(live[step[1]], work[step[1]], step[2])
+            forest_edit_json(work[step[1]], step[2])
+        elif step[0] == "trav":
+            f, i, n = step[1], step[2], step[3]
+            tree = live[f][0][live[f][2][i]]
+            gens.append({"tree": copy.deepcopy(work[f]["nets"][i]["tree"]), "gen": tree.traverse(), "visits": [],
+                         "done": False, "hang": None})
+            step = ["resume", len(gens) - 1, n]
+        if step[0] == "resume":
+            g = gens[step[1]]
+            n = step[2]
+            try:
+                while not g["done"] and n != 0:
+                    try:
+                        g["visits"].append(canon_visit(limited(2, lambda: next(g["gen"]))))
+                    except StopIteration:
+                        g["done"] = True
+                    n -= 1
+            except common.ImplHang as e:
+                _HANGS[0] += 1
+                g["hang"], g["done"] = str(e), True
+            except (AssertionError, ValueError) as e:
+                g["visits"].append(["raised", type(e).__name__])
+                g["done"] = True
+    changed = []
+    for idx, tables, impl in kept:
+        now = canon_tables(tables)
+        if now != impl:
+            changed.append((idx, impl, now))
+    restore_default_sources()
+    return convs, changed, gens
+
+
+def eval_fhists(ctx, cases):
+    runs, reqs = [], []
+    for c in cases:
+        convs, changed, gens = run_fhist(c)
+        spans = []
+        for fc, impl in convs:
+            spans.append(len(reqs))
+            reqs += forest_reqs(fc, impl)
+        tspans = []
+        for g in gens:
+            tspans.append(len(reqs))
+            reqs.append({"suite": "c10", "op": "traverse", "tree": g["tree"]})
+        runs.append((c, convs, changed, gens, spans, tspans))
+    out = ctx.lean(reqs)
+    for c, convs, changed, gens, spans, tspans in runs:
+        nontrivial = len(convs) > 1
+        for k, ((fc, impl), a) in enumerate(zip(convs, spans)):
+            judge_forest(ctx, c, fc, impl, out[a:a + 3], label="history, conversion %d of %d (judged against the trees "
+                         "and keys as they are at this call): " % (k + 1, len(convs)), count=False)
+        for idx, was, now in changed:
+            ctx.violation("result-changed-after-return",
+                          "the tables returned by conversion %d of this history changed after they were returned, without "
+                          "the caller touching them: %r -> %r" % (idx + 1, str(was)[:200], str(now)[:200]), c)
+        for g, a in zip(gens, tspans):
+            model = out[a]["visits"]
+            ctx.tag("traverse_generator_" + ("completed" if g["done"] else "abandoned"))
+            if g["hang"]:
+                ctx.violation("did-not-return", "RoutingTree.traverse did not yield: " + g["hang"], c)
+            elif (g["visits"] != model) if g["done"] else (g["visits"] != model[:len(g["visits"])]):
+                # traverse_exact: the model's traversal is exactly the nodes of the tree
+                ctx.mismatch("c10.traverse", "traversal %r, model %r" % (str(g["visits"])[:200], str(model)[:200]), c)
+            nontrivial = True
+        ctx.tag("history", "history_" + ("lazy" if gens else "edits" if any(s[0] == "edit" for s in c["steps"]) else
+                                         "twins" if len(c["forests"]) > 1 else "repeat"))
+        ctx.case(c, nontrivial)
 
 
 # --------------------------------------------------------------------------------------------
@@ -1525,6 +1973,9 @@ def run(ctx):
     forests = [gen_forest(ctx.rng) for _ in range(n_forest)]
     for i in range(0, len(forests), 2000):
         eval_forests(ctx, forests[i:i + 2000])
+    fh = [gen_fhist(ctx.rng) for _ in range(ctx.scale(40, 1500) * mult)]
+    for i in range(0, len(fh), 500):
+        eval_fhists(ctx, fh[i:i + 500])
     eval_codec(ctx, gen_codec(ctx.rng, n_codec))
     eval_loads(ctx, gen_load_cases(ctx, n_load))
     eval_loads(ctx, gen_load_cases(ctx, ctx.scale(30, 300) * mult, lost=True))
@@ -1536,6 +1987,8 @@ def replay(ctx, payload):
     c = payload["case"]
     if c.get("kind") == "forest":
         eval_forests(ctx, [c])
+    elif c.get("kind") == "fhist":
+        eval_fhists(ctx, [c])
     elif c.get("kind") == "load":
         eval_loads(ctx, [c])
     elif c.get("kind") == "session":
